@@ -231,7 +231,6 @@ class EquationSolver(object):
         T = self.ParameterInitialSteadyStateMaxTime
         new_solver.Parser.MaxTime = T
         new_solver.MaxIterations = 1000
-        new_solver.Parser.Err_Tolerance = self.ParameterInitialSteadyStateErrorToler
         # Fix exogenous to be constants
         for var, dummy in new_solver.Parser.Exogenous:
             val = [new_solver.TimeSeries[var][0], ] * (T + 1)
